@@ -1236,7 +1236,15 @@ def r_codepage_default(ctx, rep):
         rep.anchor_missing("R-CODEPAGE-DEFAULT", "xls::Xls::parse_workbook")
         return
     from .kit import const_value
-    cands = [c for c in walk_k(fn.body, "MethodCall") if c.get("name") in ("unwrap_or", "unwrap_or_else", "map_or") and any(f.get("k") == "Field" and f.get("name") == "force_codepage" for f in walk(c["recv"]))]
+    from .kit import let_init
+
+    def _is_opt(e):
+        # `self.options.force_codepage`, or a local that holds it (`let forced = self.options.force_codepage;`)
+        if any(f.get("k") == "Field" and f.get("name") == "force_codepage" for f in walk(e)):
+            return True
+        li = let_init(fn.body, peel(e)) if isinstance(peel(e), dict) and peel(e).get("k") == "Path" else None
+        return li is not None and any(f.get("k") == "Field" and f.get("name") == "force_codepage" for f in walk(li["init"]))
+    cands = [c for c in walk_k(fn.body, "MethodCall") if c.get("name") in ("unwrap_or", "unwrap_or_else", "map_or") and _is_opt(c["recv"])]
     if not cands:
         rep.anchor_missing("R-CODEPAGE-DEFAULT", "the default of options.force_codepage in parse_workbook")
         return
@@ -1427,3 +1435,345 @@ def r_cfborder(ctx, rep):
         rep.violation("R-CFBORDER", key, loc(bad[0][0]), "cfb::Cfb::new applies `%s` to `%s`: the sector tables are ordered by the DIFAT / the chains, not by position in the file, and free entries may sit between used ones -- reordering, de-duplicating or cutting them makes every later FAT lookup land in the wrong sector" % (bad[0][0]["name"], bad[0][1]))
     else:
         rep.holds("R-CFBORDER", key, loc(fn.raw), "difat / fats are appended to and walked in full (%d vectors watched)" % len(lids))
+
+
+# ----------------------------------------------------------------------------------------------
+# round 11 (tolerance / error handling / state, second batch)
+
+def _root_local(e):
+    """the local an expression is a view of: `x`, `&mut x`, `mem::take(&mut x)`, `x.clone()`, `x.field`"""
+    e = peel(e)
+    while isinstance(e, dict):
+        k = e.get("k")
+        if k == "Path":
+            pl = path_local(e)
+            return pl[1] if pl else None
+        if k in ("AddrOf", "Deref", "Cast", "Field", "Unary"):
+            e = peel(e.get("e"))
+        elif k == "MethodCall" and e["name"] in ("clone", "to_owned", "to_vec", "as_slice", "as_ref", "as_str", "to_string", "into", "borrow"):
+            e = peel(e["recv"])
+        elif k == "Call" and (callee(e) or "").rsplit("::", 1)[-1] in ("take", "replace") and e.get("args"):
+            e = peel(e["args"][0])
+        else:
+            return None
+    return None
+
+
+def r_fmtkey_fresh(ctx, rep):
+    """C10: in xlsx::read_styles the key a `numFmt` is stored under is built from that element alone: the local behind the
+    key of `number_formats.insert(key, ..)` is declared inside the element's own arm (fresh per element) or cleared
+    unconditionally at the top of it.  A scratch buffer that outlives the element keeps the id of an element that was
+    skipped (empty formatCode) and the next format is stored under the concatenation of the two ids."""
+    F = ctx.facts("default")
+    fn = F.fn("xlsx::Xlsx::read_styles")
+    key = "xlsx::Xlsx::read_styles|R-FMTKEY-FRESH"
+    if fn is None:
+        rep.anchor_missing("R-FMTKEY-FRESH", "xlsx::Xlsx::read_styles")
+        return
+    ins = [(n, anc) for n, anc in walk_anc(fn.body) if n.get("k") == "MethodCall" and n["name"] == "insert" and len(n.get("args", [])) == 2
+           and "BTreeMap" in ((peel(n["recv"]) or {}).get("ty") or "") + "HashMap" * 0 or (n.get("k") == "MethodCall" and n["name"] == "insert" and len(n.get("args", [])) == 2 and "Map<" in ((peel(n["recv"]) or {}).get("ty") or ""))]
+    if not ins:
+        rep.anchor_missing("R-FMTKEY-FRESH", "the insert into the number-format map of read_styles")
+        return
+    bad = None
+    for n, anc in ins:
+        loops = [a for a in anc if a.get("k") == "Loop"]
+        if not loops:
+            continue
+        inner = loops[-1]
+        for arg in n["args"]:
+            lid = _root_local(arg)
+            if lid is None:
+                continue
+            decl_in = any(x.get("k") == "Let" and lid in [b[1] for b in pat_bindings(x["pat"])] for x in walk(inner))
+            if decl_in:
+                continue
+            # declared outside the element loop: accepted only if cleared at the top level of the arm holding the insert
+            arm_body = None
+            for a in anc:
+                if a.get("k") == "Match":
+                    for arm in a["arms"]:
+                        if any(x is n for x in walk(arm["body"])):
+                            arm_body = arm["body"]
+            cleared = False
+            if arm_body is not None:
+                from .kit import flat_stmts
+                for s in flat_stmts(arm_body):
+                    e = s.get("e") if s.get("k") in ("Expr", "Semi") else None
+                    e = unwrap(e) if e is not None else None
+                    if isinstance(e, dict) and e.get("k") == "MethodCall" and e["name"] == "clear" and _root_local(e["recv"]) == lid:
+                        cleared = True
+                        break
+                    if isinstance(e, dict) and e.get("k") in ("If", "Match", "Loop"):
+                        break
+            if not cleared:
+                bad = (n, lid)
+    if bad:
+        rep.violation("R-FMTKEY-FRESH", key, loc(bad[0]), "read_styles stores a number format under a key built in a buffer that outlives the `numFmt` element: an element that is skipped leaves its id behind and the next format is filed under both ids, so cells styled with it lose their date / duration kind")
+    else:
+        rep.holds("R-FMTKEY-FRESH", key, loc(ins[0][0]), "key and value of the number-format map are built per element")
+
+
+def r_xfifmt(ctx, rep):
+    """C10: a BIFF8 XF's own ifmt is the effective number format, whatever its fAtrNum / parent say: xls::parse_xf looks at
+    the record at offset 2 only."""
+    F = ctx.facts("default")
+    fn = F.fn("xls::parse_xf")
+    key = "xls::parse_xf|R-XFIFMT"
+    if fn is None:
+        rep.anchor_missing("R-XFIFMT", "xls::parse_xf")
+        return
+    bad = []
+    n = 0
+    for ix in walk_k(fn.body, "Index"):
+        bty = ((peel(ix["e"]) or {}).get("ty") or "").replace("&", "").replace("mut ", "")
+        if "u8" not in bty:
+            continue
+        n += 1
+        idx = unwrap(ix["idx"])
+        start = None
+        if isinstance(idx, dict) and idx.get("k") == "Struct":
+            for f in idx.get("fields", []):
+                if f["name"] == "start":
+                    start = lit_value(f["e"])
+        elif isinstance(idx, dict) and idx.get("k") == "Call" and idx.get("args"):
+            start = lit_value(idx["args"][0])
+        if start != 2:
+            bad.append(ix)
+    if n == 0:
+        rep.anchor_missing("R-XFIFMT", "the read of ifmt in xls::parse_xf")
+    elif bad:
+        rep.violation("R-XFIFMT", key, loc(bad[0]), "parse_xf reads the XF record elsewhere than at offset 2 (ifmt): in BIFF8 the XF's own ifmt is the effective format; deriving it from the parent style or the fAtr flags turns date cells into plain numbers for writers that leave those bits clear")
+    else:
+        rep.holds("R-XFIFMT", key, loc(fn.raw), "the XF record is read at offset 2 only")
+
+
+def r_date_pure(ctx, rep):
+    """C11: a conversion is a function of (serial, flavour, date system) and nothing else: the functions of src/datatype.rs
+    consult no state -- no thread_local, no static other than the epoch constant."""
+    F = ctx.facts("dates")
+    key = "src/datatype.rs|R-DATE-PURE"
+    n = 0
+    bad = None
+    for fn in F.user_fns():
+        if fn.file != "src/datatype.rs":
+            continue
+        n += 1
+        for p in walk_k(fn.body, "Path"):
+            r = p.get("res", {})
+            ty = p.get("ty") or ""
+            if "thread::local::LocalKey" in ty or "LocalKey<" in ty:
+                bad = (p, "a thread_local (%s)" % (r.get("seg") or "?"))
+            elif r.get("dk") == "Static" and not (norm(r.get("def")) or "").endswith("EXCEL_EPOCH"):
+                bad = (p, "the static `%s`" % (r.get("seg") or "?"))
+    if n < 20:
+        rep.anchor_missing("R-DATE-PURE", "functions of src/datatype.rs (found %d)" % n)
+    elif bad:
+        rep.violation("R-DATE-PURE", key, loc(bad[0]), "a conversion in src/datatype.rs consults %s: the result then depends on what was converted before (a cache keyed by the serial alone answers a 1904-system cell with the 1900-system date of the same serial)" % bad[1])
+    else:
+        rep.holds("R-DATE-PURE", key, None, "no thread_local and no static other than the epoch in %d functions" % n)
+
+
+def r_date_unit(ctx, rep):
+    """C11: both conversions count milliseconds: the serial is multiplied by MS_MULTIPLIER itself and the product goes to
+    Duration::try_milliseconds (a coarser unit silently drops the fraction of a second)."""
+    F = ctx.facts("dates")
+    for name in ("datatype::ExcelDateTime::as_datetime", "datatype::ExcelDateTime::as_duration"):
+        fn = F.fn(name)
+        key = "%s|R-DATE-TABLE|unit" % name
+        if fn is None:
+            rep.anchor_missing("R-DATE-TABLE", name)
+            continue
+        from .kit import with_new_callees
+        ctors = []
+        muls = []
+        for body_ in with_new_callees(F, fn):
+            for c in walk_k(body_, "Call"):
+                cal = callee(c) or ""
+                if "Duration" in cal or "TimeDelta" in cal:
+                    last = cal.rsplit("::", 1)[-1]
+                    if last.startswith("try_") or last in ("milliseconds", "seconds", "days", "hours", "minutes", "microseconds", "nanoseconds", "weeks"):
+                        ctors.append((c, last))
+            for b in walk_k(body_, "Binary"):
+                if b.get("op") == "*" and any((path_def(peel(x)) or "").endswith("MS_MULTIPLIER") for x in (b["l"], b["r"]) if isinstance(peel(x), dict) and peel(x).get("k") == "Path"):
+                    muls.append(b)
+        wrong = [c for c, last in ctors if last not in ("try_milliseconds", "milliseconds")]
+        if not ctors:
+            rep.anchor_missing("R-DATE-TABLE", "the chrono Duration constructor of %s" % name)
+        elif wrong:
+            rep.violation("R-DATE-TABLE", key, loc(wrong[0]), "%s builds its duration with `%s`, not from milliseconds: the part of the serial below that unit is lost" % (name, (callee(wrong[0]) or "").rsplit("::", 1)[-1]))
+        elif not muls:
+            rep.violation("R-DATE-TABLE", key, loc(fn.raw), "%s does not multiply the serial by MS_MULTIPLIER itself (a rescaled factor changes the unit the duration is counted in)" % name)
+        else:
+            rep.holds("R-DATE-TABLE", key, loc(ctors[0][0]), "serial * MS_MULTIPLIER -> try_milliseconds")
+
+
+def r_recerr(ctx, rep):
+    """C06: xls::RecordIter::next does not advance on a framing error, so it yields the same Err for ever: every loop over
+    it must leave on Err (`record?`, or an Err arm that returns / breaks).  An Err arm that `continue`s spins."""
+    F = ctx.facts("default")
+    n = 0
+    for fn in F.user_fns():
+        if fn.file != "src/xls.rs":
+            continue
+        from .kit import always_leaves
+        for it, pat, lbody, outer in for_loops(fn.body):
+            ity = ((peel(it) or {}).get("ty") or "") if isinstance(it, dict) else ""
+            if "RecordIter" not in ity:
+                continue
+            n += 1
+            key = "%s|R-RECERR|loop#%d" % (fn.name, n)
+            lids = {lid for _, lid in pat_bindings(pat)}
+            lp = unwrap(outer["arms"][0]["body"])
+            targets = {lp.get("id")} if isinstance(lp, dict) else set()
+            bad = None
+            handled = False
+            for m in walk_k(lbody, "Match"):
+                uses = {path_local(p)[1] for p in walk_k(m["scrut"], "Path") if path_local(p)}
+                if not (uses & lids):
+                    continue
+                if m.get("src") == "TryDesugar":
+                    handled = True
+                    continue
+                for a in m["arms"]:
+                    v = pat_variant(a["pat"]) or ""
+                    if v.endswith("Err") or a["pat"].get("k") in ("Wild", "Binding"):
+                        handled = True
+                        if not always_leaves(a["body"], targets):
+                            bad = a
+            if bad is not None:
+                rep.violation("R-RECERR", key, loc(bad), "%s goes on with the next iteration after RecordIter yielded Err: the iterator does not advance on a framing error, so a sheet that ends inside a record makes the loop spin for ever" % fn.name)
+            elif handled:
+                rep.holds("R-RECERR", key, loc(lbody), "the loop over RecordIter leaves on Err")
+            else:
+                rep.violation("R-RECERR", key, loc(lbody), "%s: the Result yielded by RecordIter is neither propagated with `?` nor matched with an Err arm that leaves the loop" % fn.name)
+    rep.floor("R-RECERR", 2, "loops over xls::RecordIter")
+
+
+def r_rowlimit(ctx, rep):
+    """C14 / C03: rows 0 ..= 0xFFFFF are legal in xlsb; a sanity test on BrtRowHdr.rw that ends the sheet must not reject
+    any of them."""
+    F = ctx.facts("default")
+    from .kit import const_value
+    n = 0
+    for name in ("xlsb::cells_reader::XlsbCellsReader::next_cell", "xlsb::cells_reader::XlsbCellsReader::next_formula"):
+        fn = F.fn(name)
+        if fn is None:
+            rep.anchor_missing("R-ROWLIMIT", name)
+            continue
+        from .kit import with_new_callees
+        for body_ in with_new_callees(F, fn):
+            for b in walk_k(body_, "Binary"):
+                if b.get("op") not in (">", ">=", "<", "<="):
+                    continue
+                fl, fr = field_chain(b["l"]), field_chain(b["r"])
+                row_l = fl is not None and fl[1][-1:] == ["row"]
+                row_r = fr is not None and fr[1][-1:] == ["row"]
+                if row_l == row_r:
+                    continue
+                c = const_value(F, b["r"] if row_l else b["l"])
+                if not isinstance(c, int):
+                    continue
+                op = b["op"] if row_l else {">": "<", ">=": "<=", "<": ">", "<=": ">="}[b["op"]]
+                if c < 0x1000:
+                    continue        # not a grid limit
+                n += 1
+                # `row > c` / `row >= c` reject, `row <= c` / `row < c` accept (a helper returning "the row is in range")
+                first_rejected = {">": c + 1, ">=": c, "<=": c + 1, "<": c}[op]
+                key = "%s|R-ROWLIMIT|#%d" % (name, n)
+                if first_rejected <= 0xFFFFF:
+                    rep.violation("R-ROWLIMIT", key, loc(b), "%s treats row %d as out of range (`row %s %#x`): the last row of the grid is 0xFFFFF, a formula or value there ends the sheet early and vanishes" % (name, first_rejected, op, c))
+                else:
+                    rep.holds("R-ROWLIMIT", key, loc(b), "rows up to 0xFFFFF pass the sanity test (first rejected: %#x)" % first_rejected)
+    rep.floor("R-ROWLIMIT", 2, "row sanity tests of the xlsb cell readers")
+
+
+def r_mulrk(ctx, rep):
+    """C02 / C10: every cell of a MULRK run is decoded from its own RkRec (number *and* XF index): the value of each cell
+    parse_mul_rk pushes is `rk_num(<that iteration's chunk>, ..)`, followed through same-iteration lets and clones --
+    never a value carried over from the previous cell."""
+    F = ctx.facts("default")
+    fn = F.fn("xls::parse_mul_rk")
+    key = "xls::parse_mul_rk|R-MULRK"
+    if fn is None:
+        rep.anchor_missing("R-MULRK", "xls::parse_mul_rk")
+        return
+    from .kit import let_init
+    # the cells may be built by a private iterator adapter constructed here (`cells.extend(RkCells { .. })`): its methods count
+    bodies = [fn.body]
+    made = {(norm(s_["res"].get("ctor_of") or s_["res"].get("def")) or "") for s_ in walk_k(fn.body, "Struct")}
+    for g in list(F.fns) + list(getattr(F, "helper_fns", [])):
+        if g is not fn and g.file == "src/xls.rs" and (g.impl_self or "").split("<", 1)[0] in {m_.split("<", 1)[0] for m_ in made if m_} and (g.impl_trait or "").endswith("Iterator"):
+            bodies.append(g.body)
+    vals = []
+    home = {}
+    for body_ in bodies:
+        for c in walk_k(body_, "Call"):
+            if (callee(c) or "").endswith("Cell::new") and len(c.get("args", [])) == 2:
+                vals.append(c["args"][1])
+                home[id(c["args"][1])] = body_
+        for s in walk_k(body_, "Struct"):
+            if (norm(s["res"].get("ctor_of") or s["res"].get("def")) or "").endswith("Cell"):
+                for f in s["fields"]:
+                    if f["name"] == "val" and "e" in f:
+                        vals.append(f["e"])
+                        home[id(f["e"])] = body_
+    if not vals:
+        rep.anchor_missing("R-MULRK", "the Cell built per RkRec in xls::parse_mul_rk")
+        return
+
+    def ok(e, depth=0):
+        e = peel(e)
+        if not isinstance(e, dict) or depth > 6:
+            return False
+        k = e.get("k")
+        if k == "Call":
+            return (callee(e) or "").endswith("rk_num")
+        if k == "MethodCall" and e["name"] in ("clone", "to_owned", "into"):
+            return ok(e["recv"], depth + 1)
+        if k == "Path":
+            li = let_init(cur_body[0], e)
+            return li is not None and ok(li["init"], depth + 1)
+        if k == "If":
+            return ok(e["then"], depth + 1) and e.get("els") is not None and ok(e["els"], depth + 1)
+        if k == "Match":
+            return all(ok(a["body"], depth + 1) for a in e["arms"])
+        if k == "BlockExpr":
+            return e["block"].get("expr") is not None and ok(e["block"]["expr"], depth + 1)
+        return False
+    cur_body = [fn.body]
+    bad = []
+    for v in vals:
+        cur_body[0] = home.get(id(v), fn.body)
+        if not ok(v):
+            bad.append(v)
+    if bad:
+        rep.violation("R-MULRK", key, loc(bad[0]), "parse_mul_rk builds a cell from something else than rk_num of that cell's own RkRec (a value remembered from the previous cell ignores this cell's XF index: a date next to the same number formatted as General takes the neighbour's kind)")
+    else:
+        rep.holds("R-MULRK", key, loc(vals[0]), "each cell's value is rk_num of its own RkRec")
+
+
+def r_mergecache(ctx, rep):
+    """C07 / C17: worksheet_merge_cells(name) answers None for an unknown sheet whatever was loaded before: the cache of
+    load_merged_regions is not consulted before the sheet name was looked up."""
+    F = ctx.facts("default")
+    fn = F.fn("xlsx::Xlsx::worksheet_merge_cells")
+    key = "xlsx::Xlsx::worksheet_merge_cells|R-MERGECACHE"
+    if fn is None:
+        rep.anchor_missing("R-MERGECACHE", "xlsx::Xlsx::worksheet_merge_cells")
+        return
+    first = {}
+    for i, x in enumerate(walk(fn.body)):
+        if isinstance(x, dict) and x.get("k") == "Field":
+            fc = field_chain(x)
+            if fc and fc[0] == "self" and fc[1] and fc[1][0] not in first:
+                first[fc[1][0]] = (i, x)
+    if "sheets" not in first and "metadata" not in first:
+        rep.anchor_missing("R-MERGECACHE", "the sheet-name lookup of worksheet_merge_cells")
+        return
+    look = min(first[k][0] for k in ("sheets", "metadata") if k in first)
+    early = [first[k][1] for k in ("merged_regions", "tables") if k in first and first[k][0] < look]
+    if early:
+        rep.violation("R-MERGECACHE", key, loc(early[0]), "worksheet_merge_cells reads a lazily loaded cache before it has looked the sheet name up: an unknown name gives None on a fresh reader and Some(Ok([])) once load_merged_regions() has run")
+    else:
+        rep.holds("R-MERGECACHE", key, loc(fn.raw), "the sheet name is looked up first")
